@@ -165,7 +165,7 @@ class SymNP:
         attr = getattr(_np, name)
         if name in ("r_", "c_"):
             return _IndexWrap(attr)
-        if callable(attr) and not isinstance(attr, type) and name not in _NO_WRAP:
+        if callable(attr) and not isinstance(attr, (type, _np.ufunc)) and name not in _NO_WRAP:
             def wrapped(*a, **k):
                 return _wrap_result(attr(*a, **k))
 
